@@ -102,6 +102,9 @@ func VH_C17_match() {
 	handler := func(ctx *Context, groups []string, payload any) (*VMValue, string, error) {
 		if len(groups) > 0 {
 			got = append(got, groups[0])
+			for i := range groups {
+				groups[i] = "scratch" // a handler may use its argument as scratch space
+			}
 		} else {
 			got = append(got, "<no groups>")
 		}
